@@ -118,7 +118,6 @@ Qed.
 Section Sim.
 Context {Q : Type}.
 Variable O : ops Q.
-Variable stale : string -> nat -> bool.
 Variable lits : bool * bool.
 Variable C : @compiled Q.
 
@@ -286,12 +285,11 @@ Definition RelW : Prop :=
        consts_at nk (f_consts (cfun ce (fd_params fd) (fd_locals fd) (fd_body fd) nk na)) /\
        nomark (f_code (cfun ce (fd_params fd) (fd_locals fd) (fd_body fd) nk na)) /\
        cenv_rel ce (fd_nglob fd) (S i) (fd_nforeign fd)) /\
-  (forall x, mem x (procs O ++ w_foreign W) = true -> index_of x (p_ffi C) <> None) /\
-  (forall name idx, stale name idx = false -> rposition name (chunk_names C) = Some idx).
+  (forall x, mem x (procs O ++ w_foreign W) = true -> index_of x (p_ffi C) <> None).
 
 Definition expr_ok (n : nat) : Prop :=
   forall vg vn vf L e v,
-    eval O stale lits n W vg vn vf L e = Ok v ->
+    eval O lits n W vg vn vf L e = Ok v ->
     forall ce fi fp frs, cenv_rel ce vg vn vf -> comp_ok ce L fi fp frs (cexpr ce e) [v].
 
 (* ---- stack access *)
@@ -372,10 +370,13 @@ Proof.
       (fun nk na =>
          if is_last_result x then {| f_consts := []; f_code := [IGetLastResult]; f_na := na |}
          else match fn_lookup x (c_functions ce) with
-              | Some is_foreign =>
-                  let r := if is_foreign then FForeign x
-                           else FNormal x (match rposition x (c_chunks ce) with Some i => i | None => 0 end) in
-                  {| f_consts := [CFunRef r]; f_code := [ILoadConstant nk]; f_na := na |}
+              | Some true =>
+                  {| f_consts := [CFunRef (FForeign x)]; f_code := [ILoadConstant nk]; f_na := na |}
+              | Some false =>
+                  match rposition x (c_chunks ce) with
+                  | Some i => {| f_consts := [CFunRef (FNormal x i)]; f_code := [ILoadConstant nk]; f_na := na |}
+                  | None => {| f_consts := []; f_code := [ICompilePanic]; f_na := na |}
+                  end
               | None => {| f_consts := []; f_code := [ICompilePanic]; f_na := na |}
               end) [v]).
   { intros E1 E2. rewrite E1, E2 in H.
@@ -532,7 +533,7 @@ Qed.
 (* arguments / elements: left to right *)
 Lemma ok_args : forall n, expr_ok n ->
   forall vg vn vf L es vs ce fi fp frs,
-    evals (eval O stale lits n W vg vn vf L) es = Ok vs -> cenv_rel ce vg vn vf ->
+    evals (eval O lits n W vg vn vf L) es = Ok vs -> cenv_rel ce vg vn vf ->
     comp_ok ce L fi fp frs (cseq (map (fun a => cexpr ce a) es)) (rev vs).
 Proof.
   intros n IH vg vn vf L es vs ce fi fp frs H Hrel.
@@ -549,7 +550,7 @@ Lemma lift_ok : forall (r : res (value Q)) (k : value Q -> sres) v, r = Ok v -> 
 Proof. intros. subst. reflexivity. Qed.
 
 Lemma ok_un : forall n, expr_ok n -> forall vg vn vf L op a v ce fi fp frs,
-  bind (eval O stale lits n W vg vn vf L a) (apply_un O op) = Ok v -> cenv_rel ce vg vn vf ->
+  bind (eval O lits n W vg vn vf L a) (apply_un O op) = Ok v -> cenv_rel ce vg vn vf ->
   comp_ok ce L fi fp frs (cexpr ce (EUn op a)) [v].
 Proof.
   intros n IH vg vn vf L op a v ce fi fp frs H Hrel.
@@ -565,8 +566,8 @@ Proof.
 Qed.
 
 Lemma ok_bin : forall n, expr_ok n -> forall vg vn vf L op a b v ce fi fp frs,
-  bind (eval O stale lits n W vg vn vf L a)
-       (fun va => bind (eval O stale lits n W vg vn vf L b) (fun vb => apply_bin O op va vb)) = Ok v ->
+  bind (eval O lits n W vg vn vf L a)
+       (fun va => bind (eval O lits n W vg vn vf L b) (fun vb => apply_bin O op va vb)) = Ok v ->
   cenv_rel ce vg vn vf ->
   comp_ok ce L fi fp frs (cexpr ce (EBin op a b)) [v].
 Proof.
@@ -585,7 +586,7 @@ Proof.
 Qed.
 
 Lemma ok_list : forall n, expr_ok n -> forall vg vn vf L es v ce fi fp frs,
-  bind (evals (eval O stale lits n W vg vn vf L) es) (fun vs => Ok (VList vs)) = Ok v ->
+  bind (evals (eval O lits n W vg vn vf L) es) (fun vs => Ok (VList vs)) = Ok v ->
   cenv_rel ce vg vn vf ->
   comp_ok ce L fi fp frs (cexpr ce (EList es)) [v].
 Proof.
@@ -618,7 +619,7 @@ Proof.
 Qed.
 
 Lemma ok_field : forall n, expr_ok n -> forall vg vn vf L a fname sfields v ce fi fp frs,
-  eval O stale lits (S n) W vg vn vf L (EField a fname sfields) = Ok v ->
+  eval O lits (S n) W vg vn vf L (EField a fname sfields) = Ok v ->
   cenv_rel ce vg vn vf ->
   comp_ok ce L fi fp frs (cexpr ce (EField a fname sfields)) [v].
 Proof.
@@ -644,7 +645,7 @@ Proof.
 Qed.
 
 Lemma ok_cond : forall n, expr_ok n -> forall vg vn vf L c t e v ce fi fp frs,
-  eval O stale lits (S n) W vg vn vf L (ECond c t e) = Ok v ->
+  eval O lits (S n) W vg vn vf L (ECond c t e) = Ok v ->
   cenv_rel ce vg vn vf ->
   comp_ok ce L fi fp frs (cexpr ce (ECond c t e)) [v].
 Proof.
@@ -700,7 +701,7 @@ Lemma clocals_ok : forall n, expr_ok n -> forall vg vn vf ce fi fp frs below,
   cenv_rel ce vg vn vf -> length below = fp ->
   (exists upper, below = upper ++ rev (map snd (w_globals W))) ->
   forall wl L0 L' nk na ip s,
-    bind_locals (fun L e => eval O stale lits n W vg vn vf L e) L0 wl = Ok L' ->
+    bind_locals (fun L e => eval O lits n W vg vn vf L e) L0 wl = Ok L' ->
     m_last s = w_last W ->
     at_code fi ip (f_code (fst (clocals ce (map fst L0) wl nk na))) ->
     consts_at nk (f_consts (fst (clocals ce (map fst L0) wl nk na))) ->
@@ -744,9 +745,9 @@ Proof. induction a; destruct b; simpl; intros; try discriminate; [reflexivity | 
 Lemma call_ok : RelW -> forall n, expr_ok n -> forall i name fd vs v,
   nth_error (w_fns W) i = Some (name, fd) ->
   (if Nat.eqb (length (fd_params fd)) (length vs) then
-     bind (bind_locals (fun L' e' => eval O stale lits n W (fd_nglob fd) (S i) (fd_nforeign fd) L' e')
+     bind (bind_locals (fun L' e' => eval O lits n W (fd_nglob fd) (S i) (fd_nforeign fd) L' e')
                        (combine (fd_params fd) vs) (fd_locals fd))
-          (fun L' => eval O stale lits n W (fd_nglob fd) (S i) (fd_nforeign fd) L' (fd_body fd))
+          (fun L' => eval O lits n W (fd_nglob fd) (S i) (fd_nforeign fd) L' (fd_body fd))
    else Wrong) = Ok v ->
   forall fi ip fp frs stk0 s,
     (exists upper, stk0 = upper ++ rev (map snd (w_globals W))) -> m_last s = w_last W ->
@@ -819,7 +820,7 @@ Proof.
 Qed.
 
 Lemma ok_call : RelW -> forall n, expr_ok n -> forall vg vn vf L f args v ce fi fp frs,
-  eval O stale lits (S n) W vg vn vf L (ECall f args) = Ok v ->
+  eval O lits (S n) W vg vn vf L (ECall f args) = Ok v ->
   cenv_rel ce vg vn vf ->
   comp_ok ce L fi fp frs (cexpr ce (ECall f args)) [v].
 Proof.
@@ -862,7 +863,7 @@ Lemma index_of_some_of_ne : forall x l, index_of x l <> None -> exists i, index_
 Proof. intros. destruct (index_of x l); [eauto | contradiction]. Qed.
 
 Lemma ok_callable : RelW -> forall n, expr_ok n -> forall vg vn vf L callee args v ce fi fp frs,
-  eval O stale lits (S n) W vg vn vf L (ECallable callee args) = Ok v ->
+  eval O lits (S n) W vg vn vf L (ECallable callee args) = Ok v ->
   cenv_rel ce vg vn vf ->
   comp_ok ce L fi fp frs (cexpr ce (ECallable callee args)) [v].
 Proof.
@@ -887,15 +888,14 @@ Proof.
     apply nomark_one in Hm. destruct Hm as [Hm _]. apply chk16_ok in Hm. destruct Hm as [Hm _].
     rewrite Hm in *. simpl csize.
     destruct (leb_len_app vs stk (length args) (eq_sym Hlen)) as [Hle Hsub].
-    destruct HW as (Hfuns & Hforeign & Hstale).
+    destruct HW as (Hfuns & Hforeign).
     destruct c; try discriminate. destruct f as [name [|i]|name]; try discriminate.
-    + destruct (stale name (S i)) eqn:Est; [discriminate|].
-      destruct (nth_error (w_fns W) i) as [[name' fd]|] eqn:Hi; [|discriminate].
+    + destruct (nth_error (w_fns W) i) as [[name' fd]|] eqn:Hi; [|discriminate].
       assert (S1 : steps 1 (St fi ip fp frs ([VFun (FNormal name (S i))] ++ rev vs ++ stk) s)
                    = Some (mk (F (S i) 0 (length stk) :: F fi (ip + 5) fp :: frs) (rev vs ++ stk) s)).
-      { eapply run_one; [exact Ha|]. simpl. rewrite (Hstale _ _ Est). rewrite Hle, Hsub. reflexivity. }
+      { eapply run_one; [exact Ha|]. simpl. rewrite Hle, Hsub. reflexivity. }
       destruct Hs as [Hup _].
-      destruct (call_ok (conj Hfuns (conj Hforeign Hstale)) n IH i name' fd vs v Hi H fi (ip + 5) fp frs stk s Hup Hl) as [k2 S2].
+      destruct (call_ok (conj Hfuns Hforeign) n IH i name' fd vs v Hi H fi (ip + 5) fp frs stk s Hup Hl) as [k2 S2].
       exists (1 + k2). rewrite <- app_assoc. rewrite (steps_trans _ _ _ _ _ S1 S2). try rewrite Nat.add_0_r. reflexivity.
     + destruct (mem name (procs O ++ w_foreign W)) eqn:Em; [|discriminate].
       destruct (index_of_some_of_ne _ _ (Hforeign _ Em)) as [j Hj].
@@ -969,8 +969,8 @@ Lemma ok_parts : forall n, expr_ok n -> forall vg vn vf L ce fi fp frs parts str
   evals (fun p : string + (expr Q * option string) =>
            match p with
            | inl s => Ok s
-           | inr (a, None) => bind (eval O stale lits n W vg vn vf L a) (fun v => Ok (to_str O v))
-           | inr (a, Some spec) => bind (eval O stale lits n W vg vn vf L a) (fun v => fmt_spec O spec v)
+           | inr (a, None) => bind (eval O lits n W vg vn vf L a) (fun v => Ok (to_str O v))
+           | inr (a, Some spec) => bind (eval O lits n W vg vn vf L a) (fun v => fmt_spec O spec v)
            end) parts = Ok strs ->
   exists pushes, Forall2 (comp_ok ce L fi fp frs) (map (part_sub ce) parts) pushes /\
                  Forall2 part_rel pushes strs.
@@ -981,7 +981,7 @@ Proof.
   - apply bind_ok in H. destruct H as (str & Hstr & H). apply bind_ok in H. destruct H as (strs' & Hs & E).
     inversion E; subst strs; clear E.
     destruct (IHp _ Hs) as (pushes & F1 & F2).
-    assert (Interp : forall a spec v, eval O stale lits n W vg vn vf L a = Ok v ->
+    assert (Interp : forall a spec v, eval O lits n W vg vn vf L a = Ok v ->
               comp_ok ce L fi fp frs (part_sub ce (inr (a, spec))) [VFmt spec; v]).
     { intros a spec v Hv.
       apply (ok_then ce L fi fp frs (cexpr ce a) _ [v] [VFmt spec; v]
@@ -1008,7 +1008,7 @@ Qed.
 
 Lemma ok_string : forall n, expr_ok n -> forall vg vn vf L parts v ce fi fp frs,
   fst lits = true ->
-  eval O stale lits (S n) W vg vn vf L (EString parts) = Ok v ->
+  eval O lits (S n) W vg vn vf L (EString parts) = Ok v ->
   cenv_rel ce vg vn vf ->
   comp_ok ce L fi fp frs (cexpr ce (EString parts)) [v].
 Proof.
@@ -1104,7 +1104,7 @@ Lemma struct_zs : forall n, expr_ok n -> forall vg vn vf L ce fi fp frs sfields,
   cenv_rel ce vg vn vf ->
   forall fields fvs,
     evals (fun nf : string * expr Q =>
-             bind (eval O stale lits n W vg vn vf L (snd nf)) (fun v => Ok (fst nf, v))) fields = Ok fvs ->
+             bind (eval O lits n W vg vn vf L (snd nf)) (fun v => Ok (fst nf, v))) fields = Ok fvs ->
     (forall x, In x (map fst fields) -> In x sfields) ->
     exists zs : list zrec,
       keyed sfields (map (fun nf : string * expr Q => (fst nf, fun nk na => cexpr ce (snd nf) nk na)) fields)
@@ -1172,7 +1172,7 @@ Proof. induction l; simpl; [reflexivity | f_equal; assumption]. Qed.
 
 Lemma ok_struct : forall n, expr_ok n -> forall vg vn vf L sname sfields fields v ce fi fp frs,
   snd lits = true ->
-  eval O stale lits (S n) W vg vn vf L (EStruct sname sfields fields) = Ok v ->
+  eval O lits (S n) W vg vn vf L (EStruct sname sfields fields) = Ok v ->
   cenv_rel ce vg vn vf ->
   comp_ok ce L fi fp frs (cexpr ce (EStruct sname sfields fields)) [v].
 Proof.
@@ -1280,7 +1280,6 @@ End Sim.
 Section Closed.
 Context {Q : Type}.
 Variable O : ops Q.
-Variable stale : string -> nat -> bool.
 Variable C : @compiled Q.
 Variable W : @world Q.
 
@@ -1313,9 +1312,9 @@ Qed.
    end of <main>.  If the reference evaluation of [e] in world [W] yields [v], the
    machine started at that code halts with value [v] (and the output so far). *)
 Theorem expr_statement_correct :
-  RelW O stale C W ->
+  RelW O C W ->
   forall n e v ce nk na pre out res,
-    eval O stale (false, false) n W (length (w_globals W)) (length (w_fns W)) (length (w_foreign W)) [] e = Ok v ->
+    eval O (false, false) n W (length (w_globals W)) (length (w_fns W)) (length (w_foreign W)) [] e = Ok v ->
     cenv_rel O C W ce (length (w_globals W)) (length (w_fns W)) (length (w_foreign W)) ->
     c_locals ce = None ->
     nth_error (p_chunks C) 0 = Some ("<main>"%string, pre ++ f_code (cexpr ce e nk na) ++ [IReturn]) ->
@@ -1334,7 +1333,7 @@ Proof.
   apply at_code_app in Ha. destruct Ha as [Ha Har].
   assert (Hs : stack_ok W ce [] 0 (rev (map snd (w_globals W)))).
   { split; [exists []; reflexivity|]. rewrite Hloc. split; reflexivity. }
-  destruct (expr_correct O stale (false, false) C W HW n _ _ _ _ _ _ H ce 0 0 [] Hrel
+  destruct (expr_correct O (false, false) C W HW n _ _ _ _ _ _ H ce 0 0 [] Hrel
               nk na (csize pre) _ s0 Hs eq_refl Ha Hk Hm) as [k1 S1].
   assert (S2 : steps O C 1 (St 0 (csize pre + csize (f_code (cexpr ce e nk na))) 0 []
                                ([v] ++ rev (map snd (w_globals W))) s0)
@@ -1451,13 +1450,10 @@ Qed.
 Section Top.
 Context {Q : Type}.
 Variable O : ops Q.
-Variable stale : string -> nat -> bool.
 Variable lits : bool * bool.
 Variable fin : @cstate Q.
 Notation C := (finish fin).
 Hypothesis Hok : compile_ok (finish fin) = true.
-Hypothesis Hstale : forall name idx,
-  stale name idx = false -> rposition name (chunk_names (finish fin)) = Some idx.
 
 Definition wext (W W' : @world Q) : Prop :=
   (exists r, w_globals W' = w_globals W ++ r) /\
@@ -1513,15 +1509,14 @@ Definition Inv (st : @cstate Q) (rst : @rstate Q) (ms : @mstate Q) : Prop :=
           m_stack := rev (map snd (w_globals (r_world rst)));
           m_last := w_last (r_world rst); m_out := r_out rst; m_res := r_res rst |}.
 
-Lemma Inv_RelW : forall st rst ms, Inv st rst ms -> RelW O stale C (r_world rst).
+Lemma Inv_RelW : forall st rst ms, Inv st rst ms -> RelW O C (r_world rst).
 Proof.
-  intros st rst ms (Hpre & Hrel & _ & _ & Hf & _). split; [|split].
+  intros st rst ms (Hpre & Hrel & _ & _ & Hf & _). split.
   - intros i name fd Hi. destruct (Hf i name fd Hi) as [H _]. exact H.
   - intros x Hx. destruct Hrel as (_ & _ & _ & [rest Effi] & Hmem & _).
     specialize (Hmem x). rewrite firstn_all in Hmem.
     destruct (index_of x (c_ffi (s_env st))) as [i|] eqn:E; [|congruence].
     simpl in Effi |- *. rewrite Effi. rewrite (index_of_app _ _ rest _ E). discriminate.
-  - exact Hstale.
 Qed.
 
 (* facts about the final chunks *)
@@ -1561,7 +1556,7 @@ Qed.
 (* evaluating a top-level expression *)
 Lemma top_expr : forall st rst ms n e v tail r1 r2,
   Inv st rst ms ->
-  top_eval O stale lits n (r_world rst) e = Ok v ->
+  top_eval O lits n (r_world rst) e = Ok v ->
   s_main fin = (s_main st ++ f_code (cexpr (s_env st) e (length (s_consts st)) (s_na st)) ++ tail) ++ r1 ->
   s_consts fin = (s_consts st ++ f_consts (cexpr (s_env st) e (length (s_consts st)) (s_na st))) ++ r2 ->
   exists k, steps O C k ms
@@ -1578,7 +1573,7 @@ Proof.
     eapply (main_nomark (s_main st) _ (tail ++ r1)).
     rewrite Em. rewrite <- !app_assoc. reflexivity. }
   unfold top_eval in H.
-  destruct (expr_correct O stale lits C (r_world rst) HW n _ _ _ _ _ _ H (s_env st) 0 0 [] Hrel
+  destruct (expr_correct O lits C (r_world rst) HW n _ _ _ _ _ _ H (s_env st) 0 0 [] Hrel
               _ _ (csize (s_main st)) _ ms Hs (eq_trans (f_equal (@m_last Q) Ems) eq_refl)
               (main_at _ _ _ _ Em) (consts_pre_at _ _ _ Ek) Hm) as [k S1].
   exists k. rewrite <- S1. f_equal. rewrite Ems. reflexivity.
@@ -1597,7 +1592,7 @@ Qed.
 
 Lemma step_expr : forall n e st rst rst' ms,
   Inv st rst ms -> pre (cstmt (SExpr e) st) fin ->
-  exec_stmt O stale lits n (SExpr e) rst = Ok rst' ->
+  exec_stmt O lits n (SExpr e) rst = Ok rst' ->
   exists k ms', steps O C k ms = Some ms' /\ Inv (cstmt (SExpr e) st) rst' ms'.
 Proof.
   intros n e st rst rst' ms HI Hpre H. simpl in H.
@@ -1622,7 +1617,7 @@ Proof. intros. rewrite <- (firstn_all (l ++ [a])) at 2. rewrite app_length. refl
 
 Lemma step_let : forall n x e st rst rst' ms,
   Inv st rst ms -> pre (cstmt (SLet x e) st) fin ->
-  exec_stmt O stale lits n (SLet x e) rst = Ok rst' ->
+  exec_stmt O lits n (SLet x e) rst = Ok rst' ->
   exists k ms', steps O C k ms = Some ms' /\ Inv (cstmt (SLet x e) st) rst' ms'.
 Proof.
   intros n x e st rst rst' ms HI Hpre H. simpl in H.
@@ -1649,7 +1644,7 @@ Qed.
 
 Lemma step_fn : forall n f params wl body st rst rst' ms,
   Inv st rst ms -> pre (cstmt (SFn f params wl body) st) fin ->
-  exec_stmt O stale lits n (SFn f params wl body) rst = Ok rst' ->
+  exec_stmt O lits n (SFn f params wl body) rst = Ok rst' ->
   exists k ms', steps O C k ms = Some ms' /\ Inv (cstmt (SFn f params wl body) st) rst' ms'.
 Proof.
   intros n f params wl body st rst rst' ms HI Hpre H. simpl in H. inversion H; subst rst'; clear H.
@@ -1716,7 +1711,7 @@ Qed.
 
 Lemma step_foreign : forall n f st rst rst' ms,
   Inv st rst ms -> pre (cstmt (SForeign f) st) fin ->
-  exec_stmt O stale lits n (SForeign f) rst = Ok rst' ->
+  exec_stmt O lits n (SForeign f) rst = Ok rst' ->
   exists k ms', steps O C k ms = Some ms' /\ Inv (cstmt (SForeign f) st) rst' ms'.
 Proof.
   intros n f st rst rst' ms HI Hpre H. simpl in H. inversion H; subst rst'; clear H.
@@ -1749,7 +1744,7 @@ Qed.
 
 Lemma step_struct : forall n sn fs st rst rst' ms,
   Inv st rst ms -> pre (cstmt (SStruct sn fs) st) fin ->
-  exec_stmt O stale lits n (SStruct sn fs) rst = Ok rst' ->
+  exec_stmt O lits n (SStruct sn fs) rst = Ok rst' ->
   exists k ms', steps O C k ms = Some ms' /\ Inv (cstmt (SStruct sn fs) st) rst' ms'.
 Proof.
   intros n sn fs st rst rst' ms HI Hpre H. simpl in H. inversion H; subst rst'; clear H.
@@ -1783,7 +1778,7 @@ Qed.
 
 Lemma step_proc : forall n name args st rst rst' ms,
   Inv st rst ms -> pre (cstmt (SProc name args) st) fin ->
-  exec_stmt O stale lits n (SProc name args) rst = Ok rst' ->
+  exec_stmt O lits n (SProc name args) rst = Ok rst' ->
   exists k ms', steps O C k ms = Some ms' /\ Inv (cstmt (SProc name args) st) rst' ms'.
 Proof.
   intros n name args st rst rst' ms HI Hpre H. simpl in H.
@@ -1794,7 +1789,7 @@ Proof.
   set (W := r_world rst) in *.
   set (fargs := cseq (map (fun a => cexpr (s_env st) a) args) (length (s_consts st)) (s_na st)) in *.
   pose proof (evals_length _ _ _ Hvs) as Hl.
-  pose proof (ok_args O stale lits C W n (expr_correct O stale lits C W HW n) _ _ _ [] args vs
+  pose proof (ok_args O lits C W n (expr_correct O lits C W HW n) _ _ _ [] args vs
                 (s_env st) 0 0 [] Hvs Hrel) as Hargs.
   assert (Hs : stack_ok W (s_env st) [] 0 (rev (map snd (w_globals W)))).
   { split; [exists []; reflexivity|]. rewrite Hloc. split; reflexivity. }
@@ -1834,7 +1829,7 @@ Qed.
 
 Lemma stmt_step : forall n s st rst rst' ms,
   Inv st rst ms -> pre (cstmt s st) fin ->
-  exec_stmt O stale lits n s rst = Ok rst' ->
+  exec_stmt O lits n s rst = Ok rst' ->
   exists k ms', steps O C k ms = Some ms' /\ Inv (cstmt s st) rst' ms'.
 Proof.
   intros n s. destruct s; intros.
@@ -1848,7 +1843,7 @@ Qed.
 
 Lemma stmts_run : forall n p st rst rst' ms,
   Inv st rst ms -> cstmts p st = fin ->
-  exec_stmts O stale lits n p rst = Ok rst' ->
+  exec_stmts O lits n p rst = Ok rst' ->
   exists k ms', steps O C k ms = Some ms' /\ Inv fin rst' ms'.
 Proof.
   induction p as [|s p IH]; intros st rst rst' ms HI Efin H.
@@ -1877,38 +1872,14 @@ Proof.
     + destruct (index_of name (c_ffi (s_env st))); reflexivity.
 Qed.
 
-Lemma chunk_names_compile {Q} : forall procs0 (p : program Q),
-  chunk_names (compile procs0 p) = fn_names p.
-Proof.
-  intros. unfold chunk_names, compile, finish, fn_names. simpl. f_equal.
-  rewrite fns_names_cstmts. reflexivity.
-Qed.
-
-Lemma stale_in_rposition {Q} : forall (p : program Q) x idx,
-  stale_in p x idx = false -> rposition x (fn_names p) = Some idx.
-Proof.
-  intros p x idx H. unfold stale_in, final_idx in H.
-  pose proof (rposition_find_last x (map (fun n => (n, tt)) (fn_names p))) as R.
-  assert (E0 : forall names, map fst (map (fun n : string => (n, tt)) names) = names).
-  { induction names; simpl; [reflexivity | f_equal; assumption]. }
-  rewrite E0 in R.
-  destruct (find_last x (map (fun n => (n, tt)) (fn_names p))) as [[i u]|]; [|discriminate].
-  destruct (rposition x (fn_names p)) as [j|]; [|contradiction]. destruct R as [E _]. subst j.
-  apply negb_false_iff in H. apply Nat.eqb_eq in H. subst. reflexivity.
-Qed.
-
 Theorem compile_correct_lits {Q} : forall (O : ops Q) lits (p : program Q) n out v,
   compile_ok (compile (procs O) p) = true ->
-  RefSem.run O (stale_in p) lits n p = Ok (out, v) ->
+  RefSem.run O lits n p = Ok (out, v) ->
   exists m, Machine.run O (compile (procs O) p) m = Ok (out, v).
 Proof.
   intros O lits p n out v Hok H. unfold RefSem.run in H.
   apply bind_ok in H. destruct H as (rst' & Hrun & E). inversion E; subst out v; clear E.
   set (fin := cstmts p (cinit (procs O))).
-  assert (Hst : forall name idx, stale_in p name idx = false ->
-                                 rposition name (chunk_names (finish fin)) = Some idx).
-  { intros name idx Hs. unfold fin. change (finish (cstmts p (cinit (procs O)))) with (compile (procs O) p).
-    rewrite chunk_names_compile. apply stale_in_rposition. exact Hs. }
   assert (HI : Inv O fin (cinit (procs O)) rinit (minit (Q := Q))).
   { refine (conj (cstmts_pre _ _) (conj _ (conj eq_refl (conj eq_refl (conj _ (conj eq_refl eq_refl)))))).
     - unfold cenv_rel. simpl.
@@ -1919,7 +1890,7 @@ Proof.
       + destruct (cstmts_pre p (cinit (procs O))) as (_ & _ & _ & _ & [r E]). exists r. exact E.
       + exists []. reflexivity.
     - intros i name fd Hi. destruct i; discriminate. }
-  destruct (stmts_run O (stale_in p) lits fin Hok Hst n p _ _ _ _ HI eq_refl Hrun)
+  destruct (stmts_run O lits fin Hok n p _ _ _ _ HI eq_refl Hrun)
     as (k & ms' & S & HI').
   destruct HI' as (_ & _ & _ & _ & _ & _ & Ems).
   exists (k + 1). unfold Machine.run. change (compile (procs O) p) with (finish fin).
@@ -1927,16 +1898,16 @@ Proof.
   cbn [run_from]. rewrite (step_halt O (finish fin) _ _ _ _ _ _ _ _ _ _ (main_chunk fin)); [reflexivity | lia].
 Qed.
 
-(* the program-level theorem: the checked reference semantics (all constructs) *)
+(* the program-level theorem: the reference semantics of the language (all constructs) *)
 Theorem compile_correct {Q} : forall (O : ops Q) (p : program Q) n out v,
   compile_ok (compile (procs O) p) = true ->
-  run_checked O n p = Ok (out, v) ->
+  run_ref O n p = Ok (out, v) ->
   exists m, Machine.run O (compile (procs O) p) m = Ok (out, v).
 Proof. intros O p n out v. apply compile_correct_lits. Qed.
 
 Theorem no_panic_after_ok {Q} : forall (O : ops Q) (p : program Q) n out v,
   compile_ok (compile (procs O) p) = true ->
-  run_checked O n p = Ok (out, v) ->
+  run_ref O n p = Ok (out, v) ->
   forall m, Machine.run O (compile (procs O) p) m = Fuel
             \/ Machine.run O (compile (procs O) p) m = Ok (out, v).
 Proof.
@@ -1949,25 +1920,24 @@ Qed.
 Section Clauses.
 Context {Q : Type}.
 Variable O : ops Q.
-Variable stale : string -> nat -> bool.
 Variable C : @compiled Q.
 Variable W : @world Q.
-Hypothesis HW : RelW O stale C W.
+Hypothesis HW : RelW O C W.
 
 (* list elements keep their source order *)
 Lemma list_order : forall n vg vn vf L es vs ce fi fp frs,
-  evals (eval O stale (true, true) n W vg vn vf L) es = Ok vs ->
+  evals (eval O (true, true) n W vg vn vf L) es = Ok vs ->
   cenv_rel O C W ce vg vn vf ->
   comp_ok O C W ce L fi fp frs (cexpr ce (EList es)) [VList vs].
 Proof.
-  intros. eapply (expr_correct O stale (true, true) C W HW (S n)); [|eassumption].
+  intros. eapply (expr_correct O (true, true) C W HW (S n)); [|eassumption].
   simpl. rewrite H. reflexivity.
 Qed.
 
 (* call arguments are evaluated left to right and arrive in the callee's frame in
    source order (first argument deepest) *)
 Lemma arg_order : forall n vg vn vf L args vs ce fi fp frs,
-  evals (eval O stale (true, true) n W vg vn vf L) args = Ok vs ->
+  evals (eval O (true, true) n W vg vn vf L) args = Ok vs ->
   cenv_rel O C W ce vg vn vf ->
   comp_ok O C W ce L fi fp frs (cseq (map (fun a => cexpr ce a) args)) (rev vs).
 Proof.
@@ -1979,13 +1949,13 @@ Lemma string_order : forall n vg vn vf L parts strs ce fi fp frs,
   evals (fun p : string + (expr Q * option string) =>
            match p with
            | inl s => Ok s
-           | inr (a, None) => bind (eval O stale (true, true) n W vg vn vf L a) (fun v => Ok (to_str O v))
-           | inr (a, Some spec) => bind (eval O stale (true, true) n W vg vn vf L a) (fun v => fmt_spec O spec v)
+           | inr (a, None) => bind (eval O (true, true) n W vg vn vf L a) (fun v => Ok (to_str O v))
+           | inr (a, Some spec) => bind (eval O (true, true) n W vg vn vf L a) (fun v => fmt_spec O spec v)
            end) parts = Ok strs ->
   cenv_rel O C W ce vg vn vf ->
   comp_ok O C W ce L fi fp frs (cexpr ce (EString parts)) [VStr (String.concat EmptyString strs)].
 Proof.
-  intros. eapply (expr_correct O stale (true, true) C W HW (S n)); [|eassumption].
+  intros. eapply (expr_correct O (true, true) C W HW (S n)); [|eassumption].
   simpl. rewrite H. reflexivity.
 Qed.
 
@@ -1995,13 +1965,13 @@ Lemma field_order : forall n vg vn vf L sname sfields fields fvs vals ce fi fp f
   assoc sname (w_structs W) = Some sfields ->
   nodupb sfields = true -> length fields = length sfields ->
   evals (fun nf : string * expr Q =>
-           bind (eval O stale (true, true) n W vg vn vf L (snd nf)) (fun v => Ok (fst nf, v))) fields = Ok fvs ->
+           bind (eval O (true, true) n W vg vn vf L (snd nf)) (fun v => Ok (fst nf, v))) fields = Ok fvs ->
   collect sfields fvs = Some vals ->
   cenv_rel O C W ce vg vn vf ->
   comp_ok O C W ce L fi fp frs (cexpr ce (EStruct sname sfields fields)) [VStruct sname sfields vals].
 Proof.
   intros n vg vn vf L sname sfields fields fvs vals ce fi fp frs Ha Hn Hl Hf Hc Hrel.
-  eapply (expr_correct O stale (true, true) C W HW (S n)); [|eassumption].
+  eapply (expr_correct O (true, true) C W HW (S n)); [|eassumption].
   simpl. rewrite Ha.
   assert (E : list_eqb String.eqb sfields sfields = true).
   { clear. induction sfields; simpl; [reflexivity | rewrite String.eqb_refl; assumption]. }
@@ -2015,7 +1985,7 @@ Lemma innermost_local : forall vg vn vf L x i v ce fi fp frs,
   cenv_rel O C W ce vg vn vf ->
   comp_ok O C W ce L fi fp frs (cexpr ce (EIdent x)) [v].
 Proof.
-  intros. eapply (expr_correct O stale (true, true) C W HW 1); [|eassumption].
+  intros. eapply (expr_correct O (true, true) C W HW 1); [|eassumption].
   simpl. rewrite H. reflexivity.
 Qed.
 
@@ -2025,7 +1995,7 @@ Lemma innermost_global : forall vg vn vf L x i v ce fi fp frs,
   cenv_rel O C W ce vg vn vf ->
   comp_ok O C W ce L fi fp frs (cexpr ce (EIdent x)) [v].
 Proof.
-  intros. eapply (expr_correct O stale (true, true) C W HW 1); [|eassumption].
+  intros. eapply (expr_correct O (true, true) C W HW 1); [|eassumption].
   simpl. rewrite H, H0. reflexivity.
 Qed.
 
